@@ -1,5 +1,26 @@
-from props.common import run_bounded
+from props.common import run_bounded, verify_keys, add_obs
+from pv import obs_regex as R
+from pv import obs_tables as T
+
+KEYS = ['parso.python.prefix.PrefixPart.end_pos', 'parso.python.prefix.PrefixPart.__init__',
+        'parso.python.prefix.PrefixPart.create_spacing_part']
+
+
+def _regex():
+    obs = []
+    for v, _ in T.grammar_files():
+        obs += R.tokenizer_obligations(v)
+    obs += R.prefix_obligations('3.10')
+    return obs
 
 
 def run(report):
+    add_obs(report, _regex)
+    verify_keys(report, KEYS)
+    report.assume("regex obligations are decided on the live compiled patterns (9 token collections, prefix._regex) by z3's "
+                  "regular-expression theory; the match contract of re is language-level: groups are contiguous slices "
+                  "in pattern order (checked structurally), group i is in L(sub-pattern i)",
+                  "the tiling / balance / position invariants of tokenize_lines (DESIGN 4/C09) are not discharged deductively; "
+                  "they rest on the bounded stand-in",
+                  "A-CHARS: z3's character sort ends at U+2FFFF")
     run_bounded(report, ['tok', 'fstr'])
